@@ -36,6 +36,7 @@ type decisionSite struct {
 // findDecision implements C05.R4: every store to <x>.Status.ActiveReplicaSet reachable from the
 // EDS Reconcile takes the name of a value that derives only from result #0 of one decision call.
 func findDecision(r *Run, rule string) *decisionSite {
+	c05Prog = r.Prog
 	rec, reach := edsReconcile(r)
 	if rec == nil {
 		return nil
@@ -202,48 +203,110 @@ type promoAtoms struct {
 
 func bptr(b bool) *bool { return &b }
 
-func c05Classify(s *decisionSite, p *Path, notes *[]string) promoAtoms {
+// annotationsOfE: v (read in env) is the annotation map of obj: obj.GetAnnotations(),
+// obj.Annotations, obj.ObjectMeta.Annotations.
+func annotationsOfE(v ssa.Value, env *envT, obj ssa.Value) bool {
+	x, e := stripConvE(v, env)
+	if c, ok := x.(*ssa.Call); ok {
+		if !strings.HasSuffix(calleeName(&c.Call), ".GetAnnotations") {
+			return false
+		}
+		if c.Call.IsInvoke() {
+			return isValE(c.Call.Value, e, obj)
+		}
+		return len(c.Call.Args) == 1 && rootedAtE(c.Call.Args[0], e, obj)
+	}
+	return rootedAtE(x, e, obj, "Annotations")
+}
+
+// nameOfE: v (read in env) is the name of obj.
+func nameOfE(v ssa.Value, env *envT, obj ssa.Value) bool {
+	x, e := stripConvE(v, env)
+	if c, ok := x.(*ssa.Call); ok {
+		if !strings.HasSuffix(calleeName(&c.Call), ".GetName") {
+			return false
+		}
+		if c.Call.IsInvoke() {
+			return isValE(c.Call.Value, e, obj)
+		}
+		return len(c.Call.Args) == 1 && rootedAtE(c.Call.Args[0], e, obj)
+	}
+	return rootedAtE(x, e, obj, "Name")
+}
+
+// c05Classify reads the promotion atoms off a set of facts (each with the environment it is to be
+// read in); boolean struct fields filled by a helper are looked through (derefE).
+func c05ClassifyX(s *decisionSite, prog *Prog, facts []xfact, notes *[]string) promoAtoms {
 	var a promoAtoms
-	ds, act, utd := isParam(s.roles["daemonset"]), isParam(s.roles["active"]), isParam(s.roles["upToDate"])
-	canarySpec := loadOfPath(ds, "Spec", "Strategy", "Canary")
-	for _, f := range p.Facts {
-		v := f.V
-		switch {
-		case isEqCompare(v, act, utd):
-			a.eqActive = bptr(f.Pol)
-		case isNilCompareOf(v, act):
-			a.activeNil = bptr(f.Pol)
-		case isNilCompareOf(v, canarySpec):
-			a.noCanary = bptr(f.Pol)
-		default:
-			if c, ok := isResultOf(v, pkgEDS+".IsCanaryDeploymentValid", -1); ok {
-				if annotationsOf(ds)(c.Call.Args[0]) && nameOf(utd)(c.Call.Args[1]) {
-					a.valid = bptr(f.Pol)
-				} else {
-					*notes = append(*notes, "IsCanaryDeploymentValid is not called with (daemonset annotations, up-to-date replica set name)")
-				}
-			} else if c, ok := isResultOf(v, pkgEDS+".IsCanaryDeploymentEnded", 0); ok {
-				if canarySpec(c.Call.Args[0]) && utd(c.Call.Args[1]) && (s.roles["now"] == nil || isParam(s.roles["now"])(c.Call.Args[2])) {
-					a.ended = bptr(f.Pol)
-				} else {
-					*notes = append(*notes, "IsCanaryDeploymentEnded is not called with (spec canary, up-to-date replica set, now)")
-				}
-			} else if c, ok := isResultOf(v, pkgEDS+".IsCanaryDeploymentPaused", 0); ok {
-				if annotationsOf(ds)(c.Call.Args[0]) && utd(c.Call.Args[1]) {
-					a.paused = bptr(f.Pol)
-				} else {
-					*notes = append(*notes, "IsCanaryDeploymentPaused is not called with (daemonset annotations, up-to-date replica set)")
-				}
-			} else if c, ok := isResultOf(v, pkgEDS+".IsCanaryDeploymentFailed", -1); ok {
-				if utd(c.Call.Args[0]) {
-					a.failed = bptr(f.Pol)
-				} else {
-					*notes = append(*notes, "IsCanaryDeploymentFailed is not called with the up-to-date replica set")
-				}
+	ds, act, utd := ssa.Value(s.roles["daemonset"]), ssa.Value(s.roles["active"]), ssa.Value(s.roles["upToDate"])
+	isCanarySpec := func(x ssa.Value, e *envT) bool { return rootedAtE(x, e, ds, "Spec", "Strategy", "Canary") }
+	for _, f := range facts {
+		v, env := derefE(prog, f.V, f.env)
+		if x, y, ok := eqOperands(v); ok {
+			pol := f.Pol
+			switch {
+			case isValE(x, env, act) && isValE(y, env, utd) || isValE(x, env, utd) && isValE(y, env, act):
+				a.eqActive = bptr(pol)
+			case isNilConst(y) && isValE(x, env, act) || isNilConst(x) && isValE(y, env, act):
+				a.activeNil = bptr(pol)
+			case isNilConst(y) && isCanarySpec(x, env) || isNilConst(x) && isCanarySpec(y, env):
+				a.noCanary = bptr(pol)
+			}
+			continue
+		}
+		if c, ok := isResultOf(v, pkgEDS+".IsCanaryDeploymentValid", -1); ok {
+			if annotationsOfE(c.Call.Args[0], env, ds) && nameOfE(c.Call.Args[1], env, utd) {
+				a.valid = bptr(f.Pol)
+			} else {
+				*notes = append(*notes, "IsCanaryDeploymentValid is not called with (daemonset annotations, up-to-date replica set name)")
+			}
+		} else if c, ok := isResultOf(v, pkgEDS+".IsCanaryDeploymentEnded", 0); ok {
+			nowOK := s.roles["now"] == nil || isValE(c.Call.Args[2], env, s.roles["now"])
+			if isCanarySpec(c.Call.Args[0], env) && isValE(c.Call.Args[1], env, utd) && nowOK {
+				a.ended = bptr(f.Pol)
+			} else {
+				*notes = append(*notes, "IsCanaryDeploymentEnded is not called with (spec canary, up-to-date replica set, now)")
+			}
+		} else if c, ok := isResultOf(v, pkgEDS+".IsCanaryDeploymentPaused", 0); ok {
+			if annotationsOfE(c.Call.Args[0], env, ds) && isValE(c.Call.Args[1], env, utd) {
+				a.paused = bptr(f.Pol)
+			} else {
+				*notes = append(*notes, "IsCanaryDeploymentPaused is not called with (daemonset annotations, up-to-date replica set)")
+			}
+		} else if c, ok := isResultOf(v, pkgEDS+".IsCanaryDeploymentFailed", -1); ok {
+			if isValE(c.Call.Args[0], env, utd) {
+				a.failed = bptr(f.Pol)
+			} else {
+				*notes = append(*notes, "IsCanaryDeploymentFailed is not called with the up-to-date replica set")
 			}
 		}
 	}
 	return a
+}
+
+// c05Classify classifies the facts of one path without expanding helper predicates (kept for the
+// rules of other properties that walk the decision paths themselves; they obtain the expanded
+// alternatives with c05PathAlternatives + c05ClassifyX).
+func c05Classify(s *decisionSite, p *Path, notes *[]string) promoAtoms {
+	var base []xfact
+	for _, f := range p.Facts {
+		base = append(base, xfact{f, nil})
+	}
+	return c05ClassifyX(s, c05Prog, base, notes)
+}
+
+// c05Prog is the program of the current run (set by findDecision).
+var c05Prog *Prog
+
+// c05PathAlternatives expands the facts of a path of the decision function into alternatives in
+// which unexported helper predicates (a method deciding on a state struct, a helper returning
+// bool) are replaced by what makes them true/false.
+func c05PathAlternatives(prog *Prog, p *Path) [][]xfact {
+	var base []xfact
+	for _, f := range p.Facts {
+		base = append(base, xfact{f, nil})
+	}
+	return expandAlt(prog, base, 0)
 }
 
 func is(b *bool, want bool) bool { return b != nil && *b == want }
@@ -260,29 +323,31 @@ func c05PromotionTable(r *Run, s *decisionSite) {
 	for _, p := range paths {
 		ret := returnOf(p.Blocks[len(p.Blocks)-1])
 		res := unwrap(p.Resolve(ret.Results[0]))
-		var notes []string
-		a := c05Classify(s, p, &notes)
-		desc := describeAtoms(a)
-		pos := r.Prog.Pos(instrPos(ret))
-		construct := "return on path [" + desc + "]"
-		switch res {
-		case ssa.Value(utd):
-			okRule := is(a.eqActive, true) || is(a.activeNil, true) || is(a.noCanary, true) || is(a.valid, true) ||
-				(is(a.ended, true) && is(a.paused, false) && is(a.failed, false))
-			detail := "path facts: " + desc
-			if len(notes) > 0 {
-				detail += "; " + strings.Join(notes, "; ")
+		for _, alt := range c05PathAlternatives(r.Prog, p) {
+			var notes []string
+			a := c05ClassifyX(s, r.Prog, alt, &notes)
+			desc := describeAtoms(a)
+			pos := r.Prog.Pos(instrPos(ret))
+			construct := "return on path [" + desc + "]"
+			switch res {
+			case ssa.Value(utd):
+				okRule := is(a.eqActive, true) || is(a.activeNil, true) || is(a.noCanary, true) || is(a.valid, true) ||
+					(is(a.ended, true) && is(a.paused, false) && is(a.failed, false))
+				detail := "path facts: " + desc
+				if len(notes) > 0 {
+					detail += "; " + strings.Join(notes, "; ")
+				}
+				r.Check("C05.R1", construct, pos, shortFunc(fn),
+					"returning the up-to-date replica set requires active==upToDate ∨ active==nil ∨ no canary ∨ valid ∨ (ended ∧ ¬paused ∧ ¬failed)", okRule, detail)
+			case ssa.Value(act):
+				// keeping the active replica set is always allowed by the "only if" rule; adoption when the
+				// recorded active replica set no longer exists is required by the statement's last clause.
+				okRule := !is(a.activeNil, true) || is(a.eqActive, true)
+				o := r.Check("C05.R1", construct, pos, shortFunc(fn), "a missing active replica set is replaced by the up-to-date one", okRule, "path facts: "+desc)
+				o.Trivial = !is(a.activeNil, true)
+			default:
+				r.Undecided("C05.R1", construct, pos, shortFunc(fn), "returned replica set is neither the active nor the up-to-date parameter: "+res.String())
 			}
-			r.Check("C05.R1", construct, pos, shortFunc(fn),
-				"returning the up-to-date replica set requires active==upToDate ∨ active==nil ∨ no canary ∨ valid ∨ (ended ∧ ¬paused ∧ ¬failed)", okRule, detail)
-		case ssa.Value(act):
-			// keeping the active replica set is always allowed by the "only if" rule; adoption when the
-			// recorded active replica set no longer exists is required by the statement's last clause.
-			okRule := !is(a.activeNil, true) || is(a.eqActive, true)
-			o := r.Check("C05.R1", construct, pos, shortFunc(fn), "a missing active replica set is replaced by the up-to-date one", okRule, "path facts: "+desc)
-			o.Trivial = !is(a.activeNil, true)
-		default:
-			r.Undecided("C05.R1", construct, pos, shortFunc(fn), "returned replica set is neither the active nor the up-to-date parameter: "+res.String())
 		}
 	}
 }
@@ -537,14 +602,63 @@ func c05Valid(r *Run) {
 func c05ValidationDominates(r *Run, s *decisionSite) {
 	ff := computeFacts(s.caller)
 	b := s.call.Block()
-	ok := ff.Holds(b, true, func(v ssa.Value, _ string) bool {
+	isValidated := func(v ssa.Value, _ string) bool {
 		return isNilCompareOf(v, func(x ssa.Value) bool {
 			_, isV := isCallTo(x, pkgAPI+".ValidateExtendedDaemonSetSpec")
 			return isV
 		})
-	})
+	}
+	ok := ff.Holds(b, true, isValidated)
+	via := ""
+	if !ok {
+		// the prologue (Get, defaulting, validation) may live in a helper that returns a nil object
+		// when the reconcile must stop: the decision is then taken under `result != nil`, and every
+		// return of the helper with a non-nil result must itself be reached under validation == nil.
+		for _, f := range ff.At(b) {
+			x, y, isEq := eqOperands(f.V)
+			if !isEq || f.Pol {
+				continue
+			}
+			var res ssa.Value
+			if isNilConst(y) {
+				res = x
+			} else if isNilConst(x) {
+				res = y
+			}
+			ex, isE := res.(*ssa.Extract)
+			var helper *ssa.Function
+			idx := 0
+			if isE {
+				if c, isC := ex.Tuple.(*ssa.Call); isC {
+					helper = staticCallee(&c.Call)
+					idx = ex.Index
+				}
+			} else if c, isC := res.(*ssa.Call); isC {
+				helper = staticCallee(&c.Call)
+			}
+			if helper == nil || !r.Prog.IsRuleSite(helper) {
+				continue
+			}
+			hf := r.Prog.factsOf(helper)
+			all, n := true, 0
+			for _, hb := range helper.Blocks {
+				ret := returnOf(hb)
+				if ret == nil || len(ret.Results) <= idx || isNilConst(ret.Results[idx]) {
+					continue
+				}
+				n++
+				if !hf.Holds(hb, true, isValidated) {
+					all = false
+				}
+			}
+			if all && n > 0 {
+				ok = true
+				via = " (through " + shortFunc(helper) + ", which returns a non-nil object only after validation succeeded)"
+			}
+		}
+	}
 	r.Check("C05.R5", "validation before decision", r.Prog.Pos(s.call.Pos()), shortFunc(s.caller),
-		"ValidateExtendedDaemonSetSpec(...) == nil holds where the promotion decision is taken", ok, "must-facts: "+ff.At(b).String())
+		"ValidateExtendedDaemonSetSpec(...) == nil holds where the promotion decision is taken", ok, "must-facts: "+truncate(ff.At(b).String(), 400)+via)
 }
 
 // c05ReaderCompleteness: the paused / failed readers may answer "no" only when none of their
